@@ -17,19 +17,19 @@ import (
 
 // Cell is one cell of the mode truth table plus the seed-drawn details.
 type Cell struct {
-	Mode      string `json:"mode"`       // "" (unset) | prefer_ocsp | prefer_crl | ocsp_only | crl_only | disabled
-	OCSP      string `json:"ocsp"`       // none | good | revoked | unavailable
+	Mode      string `json:"mode"` // "" (unset) | prefer_ocsp | prefer_crl | ocsp_only | crl_only | disabled
+	OCSP      string `json:"ocsp"` // none | good | revoked | unavailable
 	AIAStrict bool   `json:"aia_strict"`
-	CRL       string `json:"crl"`        // none | listed | notlisted | unavailable
+	CRL       string `json:"crl"` // none | listed | notlisted | unavailable
 	CDPStrict bool   `json:"cdp_strict"`
 	Disk      bool   `json:"disk"`
-	Shape     int    `json:"shape"`      // 0 [leaf,root]  1 [leaf,int,root]  2 two chains  3 [leaf] alone (pinned in the trust pool)
+	Shape     int    `json:"shape"` // 0 [leaf,root]  1 [leaf,int,root]  2 two chains  3 [leaf] alone (pinned in the trust pool)
 	// drawn details
-	Source   string `json:"source"`    // where the CRL comes from for listed/notlisted: cdp | crl_url | crl_file
+	Source    string `json:"source"` // where the CRL comes from for listed/notlisted: cdp | crl_url | crl_file
 	SerialHex string `json:"serial"`
-	CAKey    string `json:"ca_key"`
-	Unavail  string `json:"unavail"`   // how "unavailable" is realised: http503 | garbage | refused
-	Others   int    `json:"others"`    // other serials in the list
+	CAKey     string `json:"ca_key"`
+	Unavail   string `json:"unavail"` // how "unavailable" is realised: http503 | garbage | refused
+	Others    int    `json:"others"`  // other serials in the list
 }
 
 func enabled(mode string) (ocsp, crl bool) {
@@ -72,6 +72,11 @@ func cells(seed int, refused bool) []Cell {
 								c.Source = "cdp"
 								if cr == "listed" || cr == "notlisted" {
 									c.Source = []string{"cdp", "cdp", "crl_url", "crl_file"}[r.IntN(4)]
+									if cr == "listed" && r.IntN(4) == 0 {
+										// two sources for one certificate: its own distribution point serves a loadable list of
+										// the same CA that does NOT list it, a configured crl_file lists it
+										c.Source = "crl_file+own-cdp"
+									}
 								}
 								c.SerialHex = []string{"05", "7fffffffffffffff", "8000000000000001", "ff00ff00ff00ff00ff00ff00ff00ff00ff00ff00", "0100"}[r.IntN(5)]
 								c.CAKey = []string{"p256a", "rsa2048a", "p384", "p521"}[r.IntN(4)]
@@ -127,6 +132,10 @@ func runCell(c Cell, x *ev.Ctx) error {
 		if c.CRL == "unavailable" && c.Unavail == "refused" {
 			cdp = []string{world.RefusedURL("/ca.crl")}
 		}
+	}
+	if c.Source == "crl_file+own-cdp" {
+		cdp = []string{crlOrigin.URL("/own.crl")}
+		crlOrigin.Serve("/own.crl", world.CRLFor(ca, 7, "aa9999"))
 	}
 	if c.OCSP != "none" {
 		aia = []string{ocspOrigin.URL("/ocsp")}
@@ -196,7 +205,7 @@ func runCell(c Cell, x *ev.Ctx) error {
 		case "crl_url":
 			crlCfg["crl_urls"] = []string{crlURL}
 			crlCfg["trusted_signature_certs_files"] = []string{caFile}
-		case "crl_file":
+		case "crl_file", "crl_file+own-cdp":
 			crlCfg["crl_files"] = []string{crlFile}
 			crlCfg["trusted_signature_certs_files"] = []string{caFile}
 		}
@@ -256,9 +265,9 @@ func runCell(c Cell, x *ev.Ctx) error {
 }
 
 var spec = ev.Spec[Cell]{
-	ID:  "C03",
-	Run: runCell,
-	Rule: "exhaustive truth table: mode {unset, prefer_ocsp, prefer_crl, ocsp_only, crl_only, disabled} x OCSP {no AIA, good, revoked, unavailable} x ocsp_aia_strict x CRL {none known, listed, not listed, CDP unavailable} x crl_cdp_strict x storage x verified-chain shape {[leaf,ca], [leaf,ca,root], two chains with a cross certificate, [leaf] alone with the issuer only in the trusted certificate files} = 3072 cells, each run through the real module (JSON config -> caddy LoadModuleByID -> VerifyClientCertificate) against scripted CRL and OCSP origins; CRL source (CDP / crl_urls / crl_files), serial width, CA key type, list size and the way 'unavailable' is realised are drawn from VERIF_SEED. Oracle: rejected iff (OCSP enabled and (revoked or (unavailable and strict))) or (CRL enabled and (listed or (CDP unavailable and strict))); side effects from the origin hit logs and the file system: disabled => no request and work_dir not even created, ocsp_only => no CRL request, crl_only => no OCSP request, both prefer_* with OCSP good => the CDP CRL was requested. Non-trivial: every cell except those with neither AIA nor CRL.",
+	ID:   "C03",
+	Run:  runCell,
+	Rule: "exhaustive truth table: mode {unset, prefer_ocsp, prefer_crl, ocsp_only, crl_only, disabled} x OCSP {no AIA, good, revoked, unavailable} x ocsp_aia_strict x CRL {none known, listed, not listed, CDP unavailable} x crl_cdp_strict x storage x verified-chain shape {[leaf,ca], [leaf,ca,root], two chains with a cross certificate, [leaf] alone with the issuer only in the trusted certificate files} = 3072 cells, each run through the real module (JSON config -> caddy LoadModuleByID -> VerifyClientCertificate) against scripted CRL and OCSP origins; CRL source (CDP / crl_urls / crl_files / a crl_file listing the certificate while its own CDP serves a loadable list of the same CA that does not), serial width, CA key type, list size and the way 'unavailable' is realised are drawn from VERIF_SEED. Oracle: rejected iff (OCSP enabled and (revoked or (unavailable and strict))) or (CRL enabled and (listed or (CDP unavailable and strict))); side effects from the origin hit logs and the file system: disabled => no request and work_dir not even created, ocsp_only => no CRL request, crl_only => no OCSP request, both prefer_* with OCSP good => the CDP CRL was requested. Non-trivial: every cell except those with neither AIA nor CRL.",
 }
 
 func TestMain(m *testing.M) {
